@@ -111,7 +111,8 @@ def _homes():
     for e in pwd.getpwall():
         if e.pw_name and [e.pw_name, e.pw_dir] not in out and not any(e.pw_name == o[0] for o in out):
             out.append([e.pw_name, e.pw_dir])
-    return sorted(out)
+    keep = [o for o in sorted(out) if o[0] in ('root', 'daemon', 'bin', 'nobody', 'mail', 'games')]
+    return keep or sorted(out)[:4]
 
 
 HOMES = _homes()
@@ -201,6 +202,7 @@ class C41(Prop):
             mk([('A', [lit('~root/"q"')]), ('B', [lit('~nosuch')]), ('C', [lit('~root')])]),
             mk([('A', [lit('q\n')]), ('B', [lit('~/q\n')]), ('C', [lit('~q\n')])]),
             mk([('A', [lit('one')]), ('B', [ref('A', True), lit('two'), ref('OUTER')]), ('A2', [ref('B'), lit(' '), ref('A2')])]),
+            mk([('A', [lit('$\\\nq')]), ('B', [lit('$\\\n#')])]),     # $, backslash-newline: the continuation is removed before the $
         ]
 
     def gen(self, tier, rng):
@@ -209,7 +211,7 @@ class C41(Prop):
         for n in range(0, depth + 1):
             for t in itertools.product(box, repeat=n):
                 yield mk([('A', [lit(''.join(t))])])
-        n_rand = {'quick': 5000, 'thorough': 120000, 'search': 60000}[tier]
+        n_rand = {'quick': 4000, 'thorough': 60000, 'search': 40000}[tier]
         for _ in range(n_rand):
             yield self.random_case(rng)
 
@@ -271,7 +273,7 @@ class C41(Prop):
         self.W._write_runtime_environment(h, {'environment': env, 'param_var': {}})
         return h.getvalue()
 
-    def run_chunk(self, chunk):
+    def run_chunk(self, chunk, depth=0):
         """One bash process evaluates the functions of a whole chunk, each in its own restricted subshell."""
         base = '/dev/shm' if os.path.isdir('/dev/shm') else None
         d = tempfile.mkdtemp(prefix='c41-', dir=base)
@@ -298,10 +300,13 @@ class C41(Prop):
                 if len(chunk) == 1:
                     return ['error']
                 # some case ended the shell: isolate it
-                return [r for inp in chunk for r in self.run_chunk([inp])]
+                return [r for inp in chunk for r in self.run_chunk([inp], depth + 1)]
             segs = out[:-5].split('\0CASE\0')[1:]
             if len(segs) != len(chunk):
-                raise Infra(f'bash returned {len(segs)} segments for {len(chunk)} cases')
+                # seen once under heavy machine load (a failed fork ends the loop early): evaluate one by one
+                if len(chunk) == 1 or depth > 2:
+                    raise Infra(f'bash returned {len(segs)} segments for {len(chunk)} cases')
+                return [r for inp in chunk for r in self.run_chunk([inp], depth + 1)]
             return [self.decode([n for n, _v in inp['defs']], seg) for inp, seg in zip(chunk, segs)]
         finally:
             shutil.rmtree(d, ignore_errors=True)
